@@ -445,3 +445,139 @@ func TestVerifAffinity(t *testing.T) {
 	}
 	t.Logf("affinity scenarios run: %d, failing scenarios: %d", n, failures)
 }
+
+// TestVerifUnsatisfied (C13): two-parameter targets where one parameter is
+// hopeless (its type is supplied or produced by nothing) and the other has an
+// exactly matching supplied value; distractor inputs and converters are added.
+// The call must fail with *ErrArgumentUnsatisfied whose Args contain the
+// hopeless parameter and not the satisfied one, whose Inputs are exactly the
+// supplied values, whose Converters contain every supplied converter, and
+// whose message mentions every missing argument.
+func TestVerifUnsatisfied(t *testing.T) {
+	n, failures := 0, 0
+	names := []string{"x", ""}
+	subs := []string{"", "a"}
+	for _, hn := range names {
+		for _, hs := range subs {
+			for _, sn := range names {
+				for _, ss := range subs {
+					hopeless := label{hn, "B", hs} // nothing of type B is ever supplied or produced
+					okp := label{sn, "A", ss}
+					if hn == sn && hn != "" {
+						okp.name = "y" // parameter names must differ
+					}
+					for extra := 0; extra < 4; extra++ {
+						sc := scenario{inputs: []label{okp}}
+						var convs [][2][]label
+						switch extra {
+						case 1:
+							sc.inputs = append(sc.inputs, label{"z", "A", ""})
+						case 2:
+							convs = append(convs, [2][]label{{{"", "A", ""}}, {{"q", "A", "k"}}})
+						case 3:
+							sc.inputs = append(sc.inputs, label{"", "A", "t"})
+							convs = append(convs, [2][]label{{{"", "A", "t"}}, {{"", "I", ""}}})
+						}
+						sc.convs = convs
+						n++
+						var rec []binding
+						target := mkFunc("target", []label{hopeless, okp}, nil, &rec)
+						opts := []Arg{Logger(hclog.NewNullLogger())}
+						for _, in := range sc.inputs {
+							opts = append(opts, inputArg(in))
+						}
+						var convFuncs []*Func
+						for ci, c := range sc.convs {
+							cf, err := NewFunc(mkFunc(fmt.Sprintf("conv%d", ci), c[0], c[1], &rec))
+							if err != nil {
+								t.Fatal(err)
+							}
+							convFuncs = append(convFuncs, cf)
+							opts = append(opts, ConverterFunc(cf))
+						}
+						f, err := NewFunc(target)
+						if err != nil {
+							t.Fatal(err)
+						}
+						var bad []string
+						res := f.Call(opts...)
+						cerr := res.Err()
+						var ue *ErrArgumentUnsatisfied
+						if cerr == nil {
+							bad = append(bad, "call succeeded")
+						} else if e, ok := cerr.(*ErrArgumentUnsatisfied); !ok {
+							bad = append(bad, fmt.Sprintf("error is %T, not the unsatisfied-argument error", cerr))
+						} else {
+							ue = e
+						}
+						if len(rec) > 0 {
+							bad = append(bad, "a function body was executed")
+						}
+						if ue != nil {
+							lab := func(v *Value) label {
+								ty := "?"
+								switch v.Type {
+								case reflect.TypeOf(provA{}):
+									ty = "A"
+								case reflect.TypeOf(provB{}):
+									ty = "B"
+								case reflect.TypeOf((*provI)(nil)).Elem():
+									ty = "I"
+								}
+								return label{v.Name, ty, v.Subtype}
+							}
+							foundHopeless := false
+							for _, a := range ue.Args {
+								l := lab(a)
+								if l == hopeless {
+									foundHopeless = true
+								} else {
+									bad = append(bad, fmt.Sprintf("Args lists %v which is not underivable", l))
+								}
+								if !strings.Contains(ue.Error(), a.String()) {
+									bad = append(bad, fmt.Sprintf("message does not mention missing argument %s", a.String()))
+								}
+							}
+							if !foundHopeless {
+								bad = append(bad, "Args does not contain the hopeless parameter")
+							}
+							got := map[label]int{}
+							for _, in := range ue.Inputs {
+								got[lab(in)]++
+							}
+							for _, in := range sc.inputs {
+								got[in]--
+							}
+							for l, c := range got {
+								if c != 0 {
+									bad = append(bad, fmt.Sprintf("Inputs differ from the supplied values at %v (%+d)", l, c))
+								}
+							}
+							for _, cf := range convFuncs {
+								found := false
+								for _, c := range ue.Converters {
+									if c == cf {
+										found = true
+									}
+								}
+								if !found {
+									bad = append(bad, "Converters misses a supplied converter")
+								}
+							}
+							if ue.Func != f {
+								bad = append(bad, "Func is not the target")
+							}
+						}
+						if len(bad) > 0 {
+							failures++
+							if failures <= 12 {
+								t.Errorf("FAILING-INPUT unsatisfied params=[%v %v] %v: %s", hopeless, okp, sc, strings.Join(bad, "; "))
+							}
+						}
+					}
+				}
+			}
+		}
+	}
+	t.Logf("unsatisfied-argument scenarios run: %d, failing: %d", n, failures)
+}
